@@ -36,7 +36,8 @@ def Ev.newCalls : Ev → List TokCall
 def Fresh (s : State) (e : Ev) : Prop :=
   e.newHashes.Nodup ∧ ∀ h ∈ e.newHashes, h ∉ s.sends.map (·.hash)
 
-instance (s : State) (e : Ev) : Decidable (Fresh s e) := by unfold Fresh; infer_instance
+instance (s : State) (e : Ev) : Decidable (Fresh s e) :=
+  inferInstanceAs (Decidable (e.newHashes.Nodup ∧ ∀ h ∈ e.newHashes, h ∉ s.sends.map (·.hash)))
 
 /-- send-time validation of token calls that the model does not re-check at receive time:
     `IssueMethod.ValidateSendBlock` (checkToken) refuses `MaxSupply < TotalSupply` -/
@@ -44,12 +45,18 @@ def CallOk : TokCall → Prop
   | .issue total max _ _ => total ≤ max
   | _ => True
 
-instance (c : TokCall) : Decidable (CallOk c) := by unfold CallOk; split <;> infer_instance
+instance : (c : TokCall) → Decidable (CallOk c)
+  | .issue total max _ _ => inferInstanceAs (Decidable (total ≤ max))
+  | .none => isTrue trivial
+  | .mint .. => isTrue trivial
+  | .burn => isTrue trivial
+  | .update .. => isTrue trivial
 
 /-- side conditions of an event that the real chain guarantees and that the model takes as given -/
 def Admissible (s : State) (e : Ev) : Prop := Fresh s e ∧ ∀ c ∈ e.newCalls, CallOk c
 
-instance (s : State) (e : Ev) : Decidable (Admissible s e) := by unfold Admissible; infer_instance
+instance (s : State) (e : Ev) : Decidable (Admissible s e) :=
+  inferInstanceAs (Decidable (Fresh s e ∧ ∀ c ∈ e.newCalls, CallOk c))
 
 /-- states reachable from `s0` by accepted, admissible events -/
 inductive Reach (s0 : State) : State → Prop where
